@@ -163,6 +163,7 @@ def shards(tier, seed):
     out += [("hdrstrings", iface) for iface in ("wsgi", "asgi")]
     out += [("redirect", i) for i in range(len(URL_ALPHA))]
     out.append(("coldstart",))
+    out.append(("sharedpair",))
     return out
 
 
@@ -205,6 +206,65 @@ def coldstart(r, tier):
     r.sample({"coldstart": [list(a) for a in COLD_SPECS[:2]], "module_reloaded_per_execution": "baize/datastructures.py", "preemption_bound": 1 if tier == "quick" else 2})
 
 
+SHARED_OPS = ["setitem", "append", "update", "setdefault"]
+
+
+def run_shared_pair(prefix, op, iface):
+    """One response object shared by two threads: one tries a mutation that must be refused, the other one is sending the
+    response at that moment (a switch is possible on every line of baize/datastructures.py)."""
+    import os
+    from ..core import vthreads as VT
+    from ..core.runner import REPO
+    mod = __import__("baize.wsgi" if iface == "wsgi" else "baize.asgi", fromlist=["Response"])
+    resp = mod.Response(200, {"x-keep": "1"})
+    evil = "v\r\nSet-Cookie: evil=1"
+
+    def mutate():
+        h = resp.headers
+        try:
+            if op == "setitem":
+                h["x-a"] = evil
+            elif op == "append":
+                h.append("x-keep", evil)
+            elif op == "update":
+                h.update({"x-a": evil})
+            else:
+                h.setdefault("x-a", evil)
+        except ValueError:
+            return "refused"
+        return "accepted"
+
+    def emit():
+        return [(k, v) for k, v in resp.list_headers(as_bytes=(iface == "asgi"))]
+    return VT.run_thread_pair(prefix, [mutate, emit], [os.path.join(REPO, "baize", "datastructures.py")])
+
+
+def shared_pairs(r, tier):
+    from ..core.explore import dfs
+    for iface in ("wsgi", "asgi"):
+        for op in SHARED_OPS:
+            outs = set()
+
+            def on_exec(x):
+                r.count("evaluations")
+                r.count("traces")
+                r.count("transitions", len(x.choices))
+                res = x.obs["results"]
+                outs.add(repr(res))
+                w = {"kind": "sharedpair", "iface": iface, "op": op, "schedule": list(x.choices)}
+                if x.obs["stuck"]:
+                    r.violation("sharedpair:stuck", w, f"{iface} two threads on one response object ({op}): {x.obs['stuck']}")
+                    return
+                lines = res[1] if isinstance(res[1], list) else []
+                flat = [(k.decode("latin-1") if isinstance(k, bytes) else k, v.decode("latin-1") if isinstance(v, bytes) else v) for k, v in lines]
+                if res[0] != "refused" or not isinstance(res[1], list) or any(bad_chars(k) or bad_chars(v) for k, v in flat):
+                    r.violation("sharedpair:line-injected", w, f"{iface} one response object, a thread's headers.{op}(...) with a value containing CR LF (outcome {res[0]!r}) while another thread lists the headers for sending, schedule {x.obs['trace'][-12:]}: {res[1]!r:.200}")
+            dfs(lambda prefix: run_shared_pair(prefix, op, iface), on_exec, bound=1 if tier == "quick" else 2)
+            r.count("distinct_nontrivial")
+            r.count("states", len(outs))
+    r.sample({"sharedpair": SHARED_OPS, "preemption_bound": 1 if tier == "quick" else 2})
+
+
 def bad_chars(line):
     return any(c in line for c in "\r\n\0")
 
@@ -221,6 +281,9 @@ def run_shard(desc, tier):
         # (in an interpreter of its own: re-loading a module leaves two generations of its classes behind)
         from ..core import fresh
         return fresh.call(__name__, ("coldstart-run",), tier)
+    if desc[0] == "sharedpair":
+        shared_pairs(r, tier)
+        return r
     if desc[0] == "headers":
         iface, ii = desc[1], desc[2]
         SHAPE[0] = desc[3] if len(desc) > 3 else "dict"
@@ -300,7 +363,7 @@ def run_shard(desc, tier):
         # long runs: every alphabet character repeated 1..40 times (an escaping step that handles only the first few occurrences),
         # followed by an attribute the attacker wants to plant; as value and as name
         ch = COOKIE_ALPHA[idx] if idx < len(COOKIE_ALPHA) else "; "
-        for k in list(range(1, 41)) + [100, 1000]:
+        for k in list(range(1, 41)) + [100, 1000, 1023, 1024, 1025, 4095, 4096, 4097, 8192, 65536]:  # (around the sizes a "look at the first n characters only" would pick)
             for tail in ("; domain=evil.example", "\r\nset-cookie: evil=1", ""):
                 check_cookie(r, "sid", ch * k + tail, full=False)
                 check_cookie(r, "sid", "ab" + ch * k + tail, full=True)
@@ -553,6 +616,13 @@ def finish(merged, tier):
 
 def replay(w):
     r = R()
+    if w["kind"] == "sharedpair":
+        x = run_shared_pair(list(w["schedule"]), w["op"], w["iface"])
+        res = x.obs["results"]
+        lines = res[1] if isinstance(res[1], list) else []
+        flat = [(k.decode("latin-1") if isinstance(k, bytes) else k, v.decode("latin-1") if isinstance(v, bytes) else v) for k, v in lines]
+        hit = bool(x.obs["stuck"]) or res[0] != "refused" or not isinstance(res[1], list) or any(bad_chars(k) or bad_chars(v) for k, v in flat)
+        return hit, {"results": repr(res)[:300], "trace": x.obs["trace"][-20:]}
     if w["kind"] == "coldstart":
         from ..core import fresh
         rr = fresh.call(__name__, ("coldstart-run",), "quick")
